@@ -306,6 +306,17 @@ function buildUnionError(ctx: { path: string[] }, errors: DecodeError[], receive
     },
   ];
 }
+// safeParse reports at most this many errors; the reporters stop collecting once they have them
+// (a large array of bad items used to be gathered completely, through push(...all), before the cut)
+const MAX_REPORTED_ERRORS = 10;
+function appendErrors(acc: DecodeError[], more: DecodeError[]): void {
+  for (const e of more) {
+    if (acc.length >= MAX_REPORTED_ERRORS) {
+      return;
+    }
+    acc.push(e);
+  }
+}
 function buildError(ctx: { path: string[] }, message: string, received: unknown): RegularDecodeError[] {
   return [
     {
@@ -1355,33 +1366,33 @@ export class TupleRuntype extends BaseRuntype {
 
     let idx = 0;
 
-    let acc = [];
+    let acc: DecodeError[] = [];
 
     for (const prefixItem of this.prefix) {
       const ok = prefixItem.validate(ctx, input[idx]);
       if (!ok) {
         pushPath(ctx, `[${idx}]`);
         const errors = prefixItem.reportDecodeError(ctx, input[idx]);
-        acc.push(...errors);
+        appendErrors(acc, errors);
         popPath(ctx);
       }
       idx++;
     }
 
     if (this.rest != null) {
-      for (let i = idx; i < input.length; i++) {
+      for (let i = idx; i < input.length && acc.length < MAX_REPORTED_ERRORS; i++) {
         const ok = this.rest.validate(ctx, input[i]);
         if (!ok) {
           pushPath(ctx, `[${i}]`);
           const errors = this.rest.reportDecodeError(ctx, input[i]);
-          acc.push(...errors);
+          appendErrors(acc, errors);
           popPath(ctx);
         }
       }
     } else if (input.length > idx) {
       // validate() rejects surplus items of a closed tuple: name the first one
       pushPath(ctx, `[${idx}]`);
-      acc.push(...buildError(ctx, `expected tuple of ${this.prefix.length} items, found an extra item`, input[idx]));
+      appendErrors(acc, buildError(ctx, `expected tuple of ${this.prefix.length} items, found an extra item`, input[idx]));
       popPath(ctx);
     }
 
@@ -1492,10 +1503,10 @@ export class AllOfRuntype extends BaseRuntype {
     return acc;
   }
   reportDecodeError(ctx: ReportContext, input: unknown): DecodeError[] {
-    const acc = [];
+    const acc: DecodeError[] = [];
     for (const v of this.schemas) {
       const errors = v.reportDecodeError(ctx, input);
-      acc.push(...errors);
+      appendErrors(acc, errors);
     }
     return acc;
   }
@@ -1690,14 +1701,14 @@ export class ArrayRuntype extends BaseRuntype {
       return buildError(ctx, "expected array", input);
     }
 
-    let acc = [];
-    for (let i = 0; i < input.length; i++) {
+    let acc: DecodeError[] = [];
+    for (let i = 0; i < input.length && acc.length < MAX_REPORTED_ERRORS; i++) {
       const ok = this.itemParser.validate(ctx, input[i]);
       if (!ok) {
         pushPath(ctx, `[${i}]`);
         const v = input[i];
         const arr2 = this.itemParser.reportDecodeError(ctx, v);
-        acc.push(...arr2);
+        appendErrors(acc, arr2);
         popPath(ctx);
       }
     }
@@ -1760,14 +1771,17 @@ export class MapRuntype extends BaseRuntype {
     }
     let acc: DecodeError[] = [];
     for (const [k, v] of input) {
+      if (acc.length >= MAX_REPORTED_ERRORS) {
+        break;
+      }
       pushPath(ctx, `key(${safeStringify(k)})`);
       if (!this.keyParser.validate(ctx, k)) {
-        acc = acc.concat(this.keyParser.reportDecodeError(ctx, k));
+        appendErrors(acc, this.keyParser.reportDecodeError(ctx, k));
       }
       popPath(ctx);
       pushPath(ctx, `value(${safeStringify(k)})`);
       if (!this.valueParser.validate(ctx, v)) {
-        acc = acc.concat(this.valueParser.reportDecodeError(ctx, v));
+        appendErrors(acc, this.valueParser.reportDecodeError(ctx, v));
       }
       popPath(ctx);
     }
@@ -1822,9 +1836,12 @@ export class SetRuntype extends BaseRuntype {
     }
     let acc: DecodeError[] = [];
     for (const v of input) {
+      if (acc.length >= MAX_REPORTED_ERRORS) {
+        break;
+      }
       pushPath(ctx, `item(${safeStringify(v)})`);
       if (!this.itemParser.validate(ctx, v)) {
-        acc = acc.concat(this.itemParser.reportDecodeError(ctx, v));
+        appendErrors(acc, this.itemParser.reportDecodeError(ctx, v));
       }
       popPath(ctx);
     }
@@ -2335,7 +2352,7 @@ export class ObjectRuntype extends BaseRuntype {
       return buildError(ctx, "expected object", input);
     }
 
-    let acc = [];
+    let acc: DecodeError[] = [];
 
     const configKeys = Object.keys(this.properties);
 
@@ -2344,7 +2361,7 @@ export class ObjectRuntype extends BaseRuntype {
       if (!ok) {
         pushPath(ctx, k);
         const arr2 = this.properties[k].reportDecodeError(ctx, input[k]);
-        acc.push(...arr2);
+        appendErrors(acc, arr2);
         popPath(ctx);
       }
     }
@@ -2353,6 +2370,9 @@ export class ObjectRuntype extends BaseRuntype {
       const inputKeys = Object.keys(input);
       const extraKeys = inputKeys.filter((k) => !configKeys.includes(k));
       for (const k of extraKeys) {
+        if (acc.length >= MAX_REPORTED_ERRORS) {
+          break;
+        }
         for (const p of this.indexedPropertiesParser) {
           const keyOk = p.key.validate(ctx, k);
           const valueOk = p.value.validate(ctx, input[k]);
@@ -2361,11 +2381,11 @@ export class ObjectRuntype extends BaseRuntype {
             pushPath(ctx, k);
             if (!keyOk) {
               const keyReported = p.key.reportDecodeError(ctx, k);
-              acc.push(...keyReported);
+              appendErrors(acc, keyReported);
             }
             if (!valueOk) {
               const valueReported = p.value.reportDecodeError(ctx, input[k]);
-              acc.push(...valueReported);
+              appendErrors(acc, valueReported);
             }
             popPath(ctx);
           }
@@ -2376,14 +2396,13 @@ export class ObjectRuntype extends BaseRuntype {
         const inputKeys = Object.keys(input);
         const extraKeys = inputKeys.filter((k) => !configKeys.includes(k));
         if (extraKeys.length > 0) {
-          return extraKeys
-            .map((k) => {
-              pushPath(ctx, k);
-              const err = buildError(ctx, `extra property`, input[k]);
-              popPath(ctx);
-              return err;
-            })
-            .reduce((a, b) => a.concat(b), []);
+          const extra: DecodeError[] = [];
+          for (const k of extraKeys.slice(0, MAX_REPORTED_ERRORS)) {
+            pushPath(ctx, k);
+            appendErrors(extra, buildError(ctx, `extra property`, input[k]));
+            popPath(ctx);
+          }
+          return extra;
         }
       }
     }
